@@ -48,3 +48,51 @@ def c02 (w : Wf) (fuel : Nat) (eps : List Nat) (status : List (Nat × Status)) (
   (fails.filter (fun p => !p.2)).map Prod.fst
 
 end Gwf.Spec
+
+namespace Gwf.Spec
+
+/-- make semantics for one target, from the declared path SETS and the file snapshot -/
+def upToDate (fs : String → Option Nat) (specChanged : Bool) (ins outs : List String) : Bool :=
+  !specChanged && !outs.isEmpty && outs.all (fun o => (fs o).isSome) &&
+    ins.all (fun i => outs.all (fun o => match fs i, fs o with | some a, some b => decide (a ≤ b) | _, _ => true))
+
+/-- C01 on an observed status map: every target without a live/failed/cancelled job whose
+    dependencies are all shown completed must be `completed` iff up to date, else `shouldrun` -/
+def c01 (p : Proj) (g : Graph String) (status : List (Nat × Status)) : List String :=
+  let bad := status.filter (fun (t, s) =>
+    match p.raw? t with
+    | none => true
+    | some r =>
+      let applies := (r.bstat == .unknown || r.bstat == .completed) &&
+        (g.depsOf t).all (fun d => alook d status == some .completed)
+      if applies then
+        let tg := r.toTgt p.cwd
+        let utd := upToDate p.fsFn r.specChanged tg.ins tg.outs
+        !(if utd then s == .completed else s == .shouldrun)
+      else false)
+  if bad.isEmpty then [] else ["make-semantics:" ++ ",".intercalate (bad.map (fun x => toString x.1))]
+
+end Gwf.Spec
+
+namespace Gwf.Spec
+
+def shareFile (b a : Tgt String) : Bool := b.ins.any (fun p => a.outs.contains p)
+
+/-- C03 on the relations observed from the implementation (ids = sorted-name ranks) -/
+def c03 (p : Proj) (deps dependents : List (Nat × List Nat)) (endpoints : List Nat)
+    (provides : List (String × Nat)) : List String :=
+  let ts := p.tgts
+  let ids := ts.map (·.id)
+  let depOf (t : Nat) : List Nat := (alook t deps).getD []
+  let dptOf (t : Nat) : List Nat := (alook t dependents).getD []
+  let fails : List (String × Bool) := [
+    ("deps-iff-shared-path", ts.all (fun b => ts.all (fun a => memNat a.id (depOf b.id) == shareFile b a))),
+    ("deps-only-targets", deps.all (fun e => subsetNat e.2 ids)),
+    ("dependents-is-inverse", ids.all (fun a => ids.all (fun b => memNat b (dptOf a) == memNat a (depOf b)))),
+    ("endpoints-iff-no-dependents", ids.all (fun a => memNat a endpoints == ids.all (fun b => !memNat a (depOf b)))),
+    ("provides-single-producer", ts.all (fun a => a.outs.all (fun o => alook o provides == some a.id))
+        && provides.all (fun e => ts.any (fun a => a.id == e.2 && a.outs.contains e.1)))
+  ]
+  (fails.filter (fun x => !x.2)).map Prod.fst
+
+end Gwf.Spec
